@@ -7,8 +7,8 @@ import vlib
 
 META = {
     "category": "model_checking",
-    "text": "Wire.tla is the referee: its CodecView reads a name, a question and a record at every offset of an enumerated message and the whole message in the new API's flattened view; TLC checks that the new codec's stricter pointer rule only ever rejects more and that the flattened view is consistent with the sectioned one. Every enumerated message (~50k quick) is read by base::Message/ParsedName/Question/ParsedRecord+AllRecordData and by new::base NameBuf/RevNameBuf/Question/Record<RecordData>/MessageParser and compared three-way (old vs spec, new vs spec, old vs new). Random build scripts run on both builders (old: TreeCompressor, new: NameCompressor through both the reversed-name and the forward-name path), every fourth crossing the 16384-octet pointer limit with filler records; each output is read by both codecs and, up to 220 octets, re-parsed by TLC against the pushed items.",
-    "note": "Trusted: TLC, the transcription in Wire.tla, the harness. RDATA types beyond NS/CNAME/PTR/MX/SOA/OPT/A/AAAA/private-use are 'undecided' for the referee and not compared item by item; UnparsedName, CharStr and the derive macros of other record types are not exercised. Names are compared case-insensitively after building (a compressor may point to an equal name in another case). Outputs beyond 220 octets are judged by the two readers only. The established builder is not driven across 16384 (its compressors' limit is C02's finding D_ptr_limit_c000). Build scripts also fill small buffers until pushes fail and truncate()/rewind in the middle, comparing counts after every call. For RDATA the referee does not know but both codecs do, accept/reject is compared between the codecs. Open known findings: D_new_ptr_rule, D_new_builder_truncate_counts, and four accept/reject disagreements on RDATA (empty TXT, compressed names in SRV/DNAME/RRSIG/NSEC, non-canonical type bitmaps, short ZONEMD digest).",
+    "text": "Wire.tla is the referee: its CodecView reads a name, a question and a record at every offset of an enumerated message and the whole message in the new API's flattened view; its PlainView reads stretches of the message as byte strings of their own (a name, a skipped name, a question, a record, split off and exact) the way the routes without decompression do. TLC checks that the new codec's stricter pointer rule only ever rejects more, that the flattened view is consistent with the sectioned one, and that a plain name is exactly a name the message route reads without meeting a pointer. Every enumerated message (~57k quick) is read by base::Message/ParsedName/Question/ParsedRecord+AllRecordData, Name::parse/from_octets, ParsedName::skip and by new::base NameBuf/RevNameBuf/Question/Record<RecordData>/MessageParser through split_message_bytes and through ParseBytes/SplitBytes of &Name, NameBuf, RevNameBuf, &UnparsedName, Question and Record, and compared three-way (old vs spec, new vs spec, old vs new). The referee knows the RDATA of NS/CNAME/PTR/MX/SOA/RP (names decompressed), SRV/DNAME/NSEC/RRSIG (names the new codec never decompresses), TXT/HINFO (character strings), OPT, A, AAAA. Family P puts names of 253..257 octets (17 label partitions) and character strings of 255 octets in every such place - bare, question, owner, each RDATA slot, completed by a pointer into a long question name - on every route. Random build scripts run on both builders (old: TreeCompressor, new: NameCompressor through both the reversed-name and the forward-name path), every fourth crossing the 16384-octet pointer limit with filler records; each output is read by both codecs and, up to 220 octets, re-parsed by TLC against the pushed items; recorded reads of random limit-shape messages (random partitions and octets, every place x 253..257) by every route are validated by TLC against the referee.",
+    "note": "Trusted: TLC, the transcription in Wire.tla, the harness. Where the referee gives no verdict on RDATA (types it does not know, a pointer inside SRV/DNAME/NSEC/RRSIG names in a message, a non-canonical type bitmap, an empty TXT) the case input says so and the item is not compared with the spec; for types both codecs know, accept/reject is still compared between the codecs. The content of character strings is not compared (accept/reject and lengths of the RDATA only); UnparsedName is compared as 'a name skipped'; the derive macros of other record types and Box<Name>/parse_bytes_in are not exercised. Names are compared case-insensitively after building (a compressor may point to an equal name in another case). Outputs beyond 220 octets are judged by the two readers only. The established builder is not driven across 16384 (its compressors' limit is C02's finding D_ptr_limit_c000). Build scripts also fill small buffers until pushes fail and truncate()/rewind in the middle, comparing counts after every call. The new builder is not asked to write DNAME/SRV (new::rdata::DName compresses its target, which its own reader rejects: not covered here). Open known findings: D_new_ptr_rule and four accept/reject disagreements on RDATA (empty TXT, compressed names in SRV/DNAME/RRSIG/NSEC, non-canonical type bitmaps, short ZONEMD digest).",
     "technique": "TLA+ spec (Wire.tla) + TLC exhaustive over enumerated messages; spec->impl differential case replay on two codecs; impl->spec trace validation of build scripts",
     "design_ref": "DESIGN.md §4 C19",
 }
@@ -45,6 +45,52 @@ def _vacuity(path):
         raise vlib.ToolError("vacuity: codec cases never reach %s" % sorted(need - seen))
 
 
+def _wlen(name):
+    return sum(len(l) + 1 for l in name) + 1
+
+
+def _vacuity_limits(path):
+    """family P: the referee accepts 255 octets and rejects 256 on every
+    route, in every place a name can stand"""
+    seen = set()
+    with open(path) as f:
+        for line in f:
+            c = json.loads(line)
+            e = c["exp"]
+            for p in e["plain"]:
+                n = p["n"]
+                if n["ok"] and _wlen(n["item"][0]) == 255:
+                    seen.add("plain:name255" + (":exact" if n["exact"] else ":split"))
+                if p["q"]["ok"] and _wlen(p["q"]["item"][0]) == 255:
+                    seen.add("plain:question255")
+                if p["sk"]["ok"]:
+                    seen.add("plain:skip")
+                for k in ("rn", "ro"):
+                    r = p[k]
+                    seen.add("%s:%s" % (k, "und" if r["und"] else ("ok" if r["ok"] else "err")))
+                    if r["ok"]:
+                        if _wlen(r["item"][0]) == 255:
+                            seen.add("%s:owner255" % k)
+                        for x in r["item"][5]:
+                            if _wlen(x) == 255:
+                                seen.add("%s:rdata255:type%d" % (k, r["item"][1]))
+            for r in e["old"]["rs"]:
+                if r["ok"]:
+                    for x in r["item"][5]:
+                        if _wlen(x) == 255:
+                            seen.add("msg:rdata255:type%d" % r["item"][1])
+                    if r["item"][1] in (13, 16):
+                        seen.add("msg:strings:type%d" % r["item"][1])
+            seen.add("msgend:" + e["old"]["msg"]["end"])
+    need = {"plain:name255:exact", "plain:name255:split", "plain:question255", "plain:skip",
+            "rn:ok", "rn:err", "rn:und", "ro:ok", "ro:err", "ro:und", "rn:owner255", "ro:owner255",
+            "msg:strings:type13", "msg:strings:type16", "msgend:done", "msgend:err", "msgend:und"}
+    for t in (2, 5, 12, 15, 6, 17, 33, 39, 46, 47):
+        need |= {"rn:rdata255:type%d" % t, "ro:rdata255:type%d" % t, "msg:rdata255:type%d" % t}
+    if need - seen:
+        raise vlib.ToolError("vacuity: limit-shape cases never reach %s" % sorted(need - seen))
+
+
 def run(ctx):
     thorough = ctx.tier == "thorough"
     sfx = "_thorough" if thorough else ""
@@ -70,6 +116,23 @@ def run(ctx):
     ctx.selftest("perturbed expectation is reported by replay_wire codec", "FAIL " in out)
     ctx.replay_cases("replay_wire", cases, args=["codec"], label="codec-3way")
 
+    # 2b. family P: names at the 255-octet limit (253..257, several label
+    #     partitions) and character strings at theirs on every route that does
+    #     not decompress (byte strings: name / question / record, split and
+    #     exact) and inside the RDATA of every type that carries a name, in
+    #     whole messages; the referee's laws for the plain routes are checked
+    #     in the same TLC run that emits the cases
+    lcases = os.path.join(ctx.work, "cases-limits.ndjson")
+    lim = ctx.tlc("MC_WirePlain", "Gen_WirePlain" + sfx, workers=8, label="gen-limits", coverage=False,
+                  cases_to=lcases, count=False)
+    ctx.require_ok(lim, "Gen_WirePlain")
+    ctx.exhaustive_flags.append(True)
+    ctx.coverage_actions["MC_WirePlain:Phase1,Phase2"] = (lim.distinct, lim.generated)
+    if lim.ncases < (300 if thorough else 250):
+        raise vlib.ToolError("limit-shape generator produced too few cases (%d)" % lim.ncases)
+    _vacuity_limits(lcases)
+    ctx.replay_cases("replay_wire", lcases, args=["codec"], label="codec-limits")
+
     # 3. I->S: build scripts on both builders, outputs read by both codecs,
     #    small outputs re-parsed by TLC
     env = {d: "1" for d in ctx.open_devs}
@@ -83,8 +146,11 @@ def run(ctx):
         kinds = {}
         sweep = set()
         edns_built = False
+        places = set()
         for l in open(tr):
             o = json.loads(l)
+            if o["ev"] == "plain":
+                places.add((o["slot"], o["namelen"]))
             kinds[(o["ev"], o.get("side"))] = kinds.get((o["ev"], o.get("side")), 0) + 1
             if o.get("script") == "sweep" and o.get("side") == "new":
                 sweep.add((o["forward"], o["suffix_at"]))
@@ -97,6 +163,12 @@ def run(ctx):
                     raise vlib.ToolError("vacuity: no sweep script puts a suffix at %d (forward=%s)" % (at, fw))
         if not edns_built:
             raise vlib.ToolError("vacuity: no built message carries an EDNS record with ext_rcode != version")
+        for slot in ("qn", "own", "rd2", "rd5", "rd12", "rd15", "rd6", "rd17", "rd33", "rd39", "rd46", "rd47"):
+            for n in (254, 255, 256):
+                if (slot, n) not in places:
+                    raise vlib.ToolError("vacuity: no recorded name of %d octets in place %s" % (n, slot))
+        if not any(s.startswith("ptr") for s, _ in places) or not any(s.startswith("str") for s, _ in places):
+            raise vlib.ToolError("vacuity: no recorded pointer-completed name / character strings at the limit")
         for need in (("built", "old"), ("built", "new"), ("bigbuilt", "old"), ("bigbuilt", "new"),
                      ("fill", "old"), ("trunc", "old")):
             if not kinds.get(need):
@@ -107,7 +179,10 @@ def run(ctx):
         ok, res, rej = ctx.validate_trace("Trace_Codec", "Trace_Codec", tr, label="build-%d" % i, env=env)
         ctx.traces += 1
         if not ok:
-            ctx.violation("a built message is not read back as pushed by referee / old / new codec", rej)
+            what = ("a reading route of one codec differs from the referee's view of a limit-shape message"
+                    if (rej or {}).get("event", {}).get("ev") == "plain"
+                    else "a built message is not read back as pushed by referee / old / new codec")
+            ctx.violation(what, rej)
         for w in res.tagged.get("WITNESSED", []):
             for d in w.get("devs", []):
                 ctx.known(d, {"trace": os.path.basename(tr)})
@@ -123,9 +198,26 @@ def run(ctx):
             open(bad, "w").write("\n".join(lines) + "\n")
             ok2, _, _ = ctx.validate_trace("Trace_Codec", "Trace_Codec", bad, label="build-selftest", env=env)
             ctx.selftest("corrupted build trace is rejected by Trace_Codec", not ok2)
+            # ... and a reading-route verdict that differs from the referee's
+            bad = os.path.join(ctx.work, "plain-bad.ndjson")
+            plain = []
+            for l in lines:
+                o = json.loads(l)
+                if o["ev"] != "plain":
+                    continue
+                plain.append(o)
+                hit = [p for p in o["plain"] if p["n"]["ok"] is True]
+                if hit and len(plain) >= 3:
+                    hit[0]["n"]["exact"] = not hit[0]["n"]["exact"]
+                    break
+            open(bad, "w").write("\n".join(json.dumps(o) for o in plain) + "\n")
+            ok3, _, rej3 = ctx.validate_trace("Trace_Codec", "Trace_Codec", bad, label="plain-selftest", env=env)
+            ctx.selftest("a recorded reading-route verdict that differs from the referee's is rejected by Trace_Codec",
+                         (not ok3) and rej3 is not None and rej3.get("matched") == len(plain) - 1)
 
     ctx.assume("the referee's pointer rule is RFC 1035 4.1.4 read as 'strictly before the pointer'; the new codec's stricter rule is reported as D_new_ptr_rule, not treated as equally right")
-    ctx.assume("RDATA types unknown to Wire.tla are undecided for the referee: item-by-item comparison stops there")
+    ctx.assume("RDATA types unknown to Wire.tla, a pointer inside an SRV/DNAME/NSEC/RRSIG name in a message (RFC 3597 4 lets a receiver decompress), a non-canonical type bitmap and an empty TXT are undecided for the referee: item-by-item comparison stops there")
+    ctx.assume("a byte string without a message around it cannot contain a compression pointer: the plain routes of both codecs must reject one")
     ctx.assume("built names are compared case-insensitively")
     ctx.assume("outputs beyond 220 octets (all that cross 16384) are judged by the two readers, not re-parsed by TLC")
     ctx.assume("the established builder is not driven across 16384 here (C02 D_ptr_limit_c000)")
